@@ -1000,6 +1000,7 @@ def _mask(sig, num_args, hide_args, hide_kwargs,
         varargs = None
 
     partial_mode = partial_obj is not None
+    absorbed = []
 
     for kwarg_name in named_args:
         if kwarg_name in consumed_names:
@@ -1034,15 +1035,19 @@ def _mask(sig, num_args, hide_args, hide_kwargs,
                 'Named parameter {0!r} not found in signature: {1}'
                 .format(kwarg_name, sig))
         elif partial_mode:
-            stars = [p.name for p in (varargs, varkwargs) if p is not None]
-            if kwarg_name not in stars:
-                kwoargs[kwarg_name] = UpgradedParameter(
-                    kwarg_name, _util.funcsigs.Parameter.KEYWORD_ONLY,
-                    default=named_args[kwarg_name])
-                src[kwarg_name] = [partial_obj]
-            # else: spelled like a star parameter (partial(f, args=1) for
-            # f(*args, **kwargs)), it cannot be shown; **kwargs takes it
+            absorbed.append(kwarg_name)
         consumed_names.add(kwarg_name)
+
+    for kwarg_name in absorbed:
+        # a keyword spelled like a star parameter that is still there
+        # (partial(f, args=1) for f(*args, **kwargs)) cannot be shown as a
+        # parameter of its own; **kwargs takes it
+        stars = [p.name for p in (varargs, varkwargs) if p is not None]
+        if kwarg_name not in stars:
+            kwoargs[kwarg_name] = UpgradedParameter(
+                kwarg_name, _util.funcsigs.Parameter.KEYWORD_ONLY,
+                default=named_args[kwarg_name])
+            src[kwarg_name] = [partial_obj]
 
     if hide_kwargs:
         # only now: the named arguments above still have to fit the
